@@ -661,7 +661,7 @@ FILE_TAILS = ["\n", "\n", "", "\n# end of file", "  # trailing comment", "\n\n\n
 
 def materialize(world, root: str, schema_partition=None, queries_partition=None, creation_order_seed: Optional[int] = None,
                 extra_cfg: Optional[Dict[str, Any]] = None, remote_url: Optional[str] = None,
-                tail_seed: Optional[int] = None, decoys_seed: Optional[int] = None) -> Dict[str, Any]:
+                tail_seed: Optional[int] = None, decoys_seed: Optional[int] = None, symlink_seed: Optional[int] = None) -> Dict[str, Any]:
     """Write the project into `root`.  Returns {"argv", "config_path", "targets", "cfg"}."""
     import random
     os.makedirs(root, exist_ok=True)
@@ -716,6 +716,21 @@ def materialize(world, root: str, schema_partition=None, queries_partition=None,
         os.makedirs(os.path.dirname(p), exist_ok=True)
         with open(p, "w", encoding="utf-8") as f:
             f.write(text)
+    for src_rel, dest_rel in (world.get("layout_symlink") or []) if schema_partition else []:
+        src = os.path.join(root, "schema_dir", src_rel)
+        dest = os.path.join(root, "schema_dir", dest_rel)
+        os.makedirs(os.path.dirname(dest), exist_ok=True)
+        if os.path.exists(src) and not os.path.lexists(dest):
+            os.symlink(os.path.relpath(src, os.path.dirname(dest)), dest)
+    if symlink_seed is not None and schema_partition and len(schema_partition) >= 2 and not world.get("layout_symlink"):
+        # one schema file is reachable under a second name (a symlink placed in one of the schema directories)
+        srng = random.Random(symlink_seed)
+        rels = sorted(os.path.join("schema_dir", rel) for rel, _ in schema_partition)
+        src = os.path.join(root, srng.choice(rels))
+        ddir = os.path.join(root, os.path.dirname(srng.choice(rels)))
+        dest = os.path.join(ddir, srng.choice(["a_shared_link.graphql", "zz_shared_link.gql", "m_link.graphqls"]))
+        if not os.path.lexists(dest):
+            os.symlink(os.path.relpath(src, ddir), dest)
     config_path = os.path.join(root, "pyproject.toml")
     with open(config_path, "w", encoding="utf-8") as f:
         f.write(toml_dumps(cfg))
